@@ -39,7 +39,7 @@ import (
 
 const (
 	c06Instance = 42
-	c06Eon      = 3
+	c06Eon      = 1
 	c06Slot     = 1000
 	c06Ptr      = 7
 	outsider    = 9 // participant that is in no keyper set
